@@ -15,7 +15,7 @@ from ..core import guarded
 ID = "C02"
 TECHNIQUE = ("Hypothesis-generated (Hamiltonian, generator, state, axis, order, refinement, form, RWA, dephasing) "
              "against expm of an independently assembled Liouvillian with the exact Taylor truncation error as bound")
-LEVEL = ("closed systems: stored states vs exact U rho U+ within 3x the exact truncation error of the order-L map for "
+LEVEL = ("closed systems (Hamiltonian and its rotating-wave setting defined outside or inside an energy-units context; propagation outside or inside a basis context): stored states vs exact U rho U+ within 3x the exact truncation error of the order-L map for "
          "the generated step, conservation of trace/purity/energy, state-vector vs density-matrix propagation, "
          "rotating-frame propagation converted back vs laboratory-frame exact dynamics; Lindblad generators (operator "
          "and tensor form, projector and dense real operators): agreement with expm of the GKSL Liouvillian within "
